@@ -550,7 +550,13 @@ func (in *Inst) WaitComplete(d time.Duration) bool {
 }
 
 // Vars returns the instance variables in canonical text form.
-func (in *Inst) Vars() string {
+func (in *Inst) Vars() string { return in.vars(false) }
+
+// VarsAndObjects: the variables and, as "@name", every data object that holds a value (for families whose answers
+// write data objects through AnswerOK's "@name" results).
+func (in *Inst) VarsAndObjects() string { return in.vars(true) }
+
+func (in *Inst) vars(withObjects bool) string {
 	m := in.Proc.Locator().CloneVariables()
 	keys := make([]string, 0, len(m))
 	for k := range m {
@@ -562,7 +568,7 @@ func (in *Inst) Vars() string {
 		parts = append(parts, fmt.Sprintf("%s=%v", k, m[k].Value()))
 	}
 	// data objects that hold a value, as "@name" (sorted before the variables: '@' < letters)
-	if loc, found := in.Proc.Locator().FindIItemAwareLocator(data.LocatorObject); found {
+	if loc, found := in.Proc.Locator().FindIItemAwareLocator(data.LocatorObject); found && withObjects {
 		if c, ok := loc.(interface{ Clone() map[string]data.IItem }); ok {
 			objs := c.Clone()
 			names := make([]string, 0, len(objs))
